@@ -18,6 +18,7 @@ import (
 	"net/url"
 	"os"
 	"sort"
+	"strings"
 	"sync/atomic"
 	"testing"
 	"time"
@@ -51,6 +52,8 @@ type act struct {
 }
 
 type script struct {
+	// Slow: the daemons hold every pin/add for this many milliseconds (cancelled calls are dropped)
+	Slow  int      `json:"slow"`
 	ID    string   `json:"id"`
 	Peers []string `json:"peers"`
 	Cids  []string `json:"cids"`
@@ -91,6 +94,11 @@ type node struct {
 // answered with an IPFS-style 500 error, otherwise it is relayed unchanged.
 type outageProxy struct {
 	down int32
+	// slow > 0: every pin/add is held for that many milliseconds before it is relayed; a request whose
+	// client went away meanwhile (the connector cancelled it) is dropped, as a real daemon abandons a
+	// fetch when the API connection closes
+	slow int32
+	held int32
 	ln   net.Listener
 	srv  *http.Server
 }
@@ -113,6 +121,18 @@ func newOutageProxy(target string) (*outageProxy, error) {
 			w.WriteHeader(http.StatusInternalServerError)
 			w.Write([]byte(`{"Message":"daemon is down (verif outage)","Code":0,"Type":"error"}`))
 			return
+		}
+		if ms := atomic.LoadInt32(&op.slow); ms > 0 && strings.HasSuffix(r.URL.Path, "/pin/add") {
+			atomic.AddInt32(&op.held, 1)
+			t := time.NewTimer(time.Duration(ms) * time.Millisecond)
+			select {
+			case <-t.C:
+				atomic.AddInt32(&op.held, -1)
+			case <-r.Context().Done():
+				t.Stop()
+				atomic.AddInt32(&op.held, -1)
+				return
+			}
 		}
 		rp.ServeHTTP(w, r)
 	})}
@@ -186,6 +206,7 @@ func runScript(t *testing.T, sc *script, seed int64) (*obs, error) {
 			return nil, err
 		}
 		names.SetPeer(pn, r.ID)
+		atomic.StoreInt32(&gw.slow, int32(sc.Slow))
 		n := &node{name: pn, r: r, mock: mock, gw: gw}
 		nodes[pn] = n
 		order = append(order, n)
@@ -288,7 +309,7 @@ func runScript(t *testing.T, sc *script, seed int64) (*obs, error) {
 				}
 				b, _ := json.Marshal(pins)
 				snap += n.name + string(b)
-				if len(queues[n.name]) > 0 {
+				if len(queues[n.name]) > 0 || atomic.LoadInt32(&n.gw.held) > 0 {
 					busy = true
 				}
 				for _, pi := range n.r.Cluster.StatusAllLocal(ctx, api.TrackerStatusQueued|api.TrackerStatusPinning|api.TrackerStatusUnpinning) {
